@@ -100,14 +100,16 @@ def bounded_image_truncation(ses):
                 n += 1
                 try:
                     t = open_alos2(f"memory://{root}", backend_options={"use_cache": False, "records_per_chunk": rpc})
-                    node = t[f"imagery/{list(t['imagery'].children)[0]}"]
+                except Exception:  # noqa: BLE001   fail-stop: the expected outcome
+                    continue
+                # open_alos2 returned a tree for a truncated file: it must at least not promise lines it cannot deliver
+                node = t[f"imagery/{list(t['imagery'].children)[0]}"]
+                try:
                     vals = node["data"].values
-                    if vals.shape != (nl, npx) or not np.array_equal(vals, images[0][2]):
-                        bad.append((level, c, rpc, f"returned a tree whose image is {vals.shape}, declared {(nl, npx)}"))
-                    else:
-                        bad.append((level, c, rpc, "truncated file accepted"))
-                except Exception:  # noqa: BLE001
-                    pass
+                    what = f"returned a tree; loading gives shape {vals.shape} (declared {tuple(node['data'].shape)})"
+                except Exception as e:  # noqa: BLE001
+                    what = f"returned a tree with declared shape {tuple(node['data'].shape)} whose lines cannot be loaded ({type(e).__name__})"
+                bad.append((level, c, rpc, what))
         fs.pipe(img, full)
         # missing image file
         fs.rm(img)
